@@ -174,4 +174,22 @@ example : (GoUtils.PageStream.run Generated.Page.stream 5 (GoUtils.PageStream.in
 example : GoUtils.PageStream.WellTimed 1 0 0 false [.item 1, .empty 2, .dryUp 3, .empty 4, .item 5, .empty 9, .empty 10] := by
   simp [GoUtils.PageStream.WellTimed]
 
+
+open GoUtils.PageStream in
+/-- "keeps yielding items of future pages": for the two-level loop as it is in the source (item test of the embedded
+    paginator first — it may move along `next` links —, then the future link of the page the paginator is on NOW; the order
+    of the statements is a regenerated fact), a chain of pages linked by `next` and `future` links in ANY mix is iterated
+    exactly as the same chain linked by `next` links only: same answer, same page, same position, same pages to come.
+    Together with `C19_yield_prefix` / `C19_exhaustive` on the flat chain this carries the exactly-once-in-order
+    statement over to streams whose future pages are available. -/
+theorem C19_stream_future_links_as_good_as_next (rest : List SPg) (cur : SPg) (pos fuel : Nat) (h : rest.length < fuel) :
+    streamHasNext fuel cur pos rest = flatHasNext cur pos rest :=
+  stream_eq_flat rest cur pos fuel h
+
+open GoUtils.PageStream in
+/-- non-vacuity, and why the order matters: A[1,2] -next-> B[] -future-> C[3]: with A exhausted the loop ends up on C;
+    a loop that looked at the future link of the page it was on BEFORE the item test (A: none) would give up -/
+example : (streamHasNext 5 ⟨[1, 2], .next⟩ 2 [⟨[], .future⟩, ⟨[3], .none⟩]).1 = true ∧
+    (absHasNext ⟨[1, 2], .next⟩ 2 [⟨[], .future⟩, ⟨[3], .none⟩]).1 = false ∧ (⟨[1, 2], .next⟩ : SPg).link ≠ .future := by decide
+
 end GoUtils.Props.C19
